@@ -18,7 +18,9 @@
         rebalance timeout; nothing creates an id except a JoinGroup with an empty member id;
    (A3) FindCoordinator answers the current coordinator ([LFind] makes the coordinator known);
    (A4) subscriptions, assignor lists and partition counts do not change (no "changed protocols",
-        no metadata-triggered rejoin). *)
+        no metadata-triggered rejoin);
+   (A5) no request fails at the client (a parked JoinGroup / SyncGroup is answered before the
+        client's request timeout). *)
 From Coq Require Import ZArith List Bool Arith.
 From Verif Require Import DispatchActs HeartbeatDispatch JoinRetryDispatch JoinDispatch
   SyncDispatch CommitDispatch.
@@ -31,9 +33,9 @@ Local Open Scope nat_scope.
 Inductive ckst := CkNone | CkStale | CkOk.      (* coordinator_id: None / a node that is no longer the coordinator / right *)
 Inductive phase := PIdle | PJoinSent | PJoined | PSyncSent.
 (* PIdle     : the coordination routine is between rejoin attempts (top of its loop / waiting)
-   PJoinSent : JoinGroup sent (parked at the coordinator, or its reply is in [m_inbox])
+   PJoinSent : JoinGroup sent: parked at the coordinator ([m_inbox] = None) or its reply is on the wire
    PJoined   : successful JoinGroup reply processed, SyncGroup not yet sent (leader: assigning)
-   PSyncSent : SyncGroup sent (parked, or reply in [m_inbox]) *)
+   PSyncSent : SyncGroup sent: parked ([m_inbox] = None) or reply on the wire *)
 
 Inductive reply :=
 | RpJoin (code : Z) (gen id : nat)
@@ -43,26 +45,28 @@ Record member := mkM {
   m_name : nat;             (* client (never changes) *)
   m_live : bool;            (* false: killed / stopped / ended by a raised error *)
   m_id : nat;               (* member id; 0 = "" (unknown) *)
-  m_gen : nat;              (* generation believed; 0 = none *)
+  m_gen : nat;              (* generation believed; 0 = none (-1 in the code) *)
   m_ph : phase;
   m_rejoin : bool;          (* need_rejoin(): _rejoin_needed_fut done, or no assignment yet *)
   m_ck : ckst;
   m_hb : bool;              (* heartbeat task running *)
+  m_wait : nat;             (* the id the parked JoinGroup sits on (= m_id, or the id generated for "") *)
   m_inbox : option reply;   (* JoinGroup / SyncGroup reply on the wire *)
   m_hbin : option Z;        (* Heartbeat reply on the wire *)
   m_cmin : option Z         (* OffsetCommit reply on the wire *)
 }.
 
-Definition set_live b m := mkM (m_name m) b (m_id m) (m_gen m) (m_ph m) (m_rejoin m) (m_ck m) (m_hb m) (m_inbox m) (m_hbin m) (m_cmin m).
-Definition set_id x m := mkM (m_name m) (m_live m) x (m_gen m) (m_ph m) (m_rejoin m) (m_ck m) (m_hb m) (m_inbox m) (m_hbin m) (m_cmin m).
-Definition set_gen g m := mkM (m_name m) (m_live m) (m_id m) g (m_ph m) (m_rejoin m) (m_ck m) (m_hb m) (m_inbox m) (m_hbin m) (m_cmin m).
-Definition set_ph p m := mkM (m_name m) (m_live m) (m_id m) (m_gen m) p (m_rejoin m) (m_ck m) (m_hb m) (m_inbox m) (m_hbin m) (m_cmin m).
-Definition set_rejoin b m := mkM (m_name m) (m_live m) (m_id m) (m_gen m) (m_ph m) b (m_ck m) (m_hb m) (m_inbox m) (m_hbin m) (m_cmin m).
-Definition set_ck k m := mkM (m_name m) (m_live m) (m_id m) (m_gen m) (m_ph m) (m_rejoin m) k (m_hb m) (m_inbox m) (m_hbin m) (m_cmin m).
-Definition set_hb b m := mkM (m_name m) (m_live m) (m_id m) (m_gen m) (m_ph m) (m_rejoin m) (m_ck m) b (m_inbox m) (m_hbin m) (m_cmin m).
-Definition set_inbox r m := mkM (m_name m) (m_live m) (m_id m) (m_gen m) (m_ph m) (m_rejoin m) (m_ck m) (m_hb m) r (m_hbin m) (m_cmin m).
-Definition set_hbin r m := mkM (m_name m) (m_live m) (m_id m) (m_gen m) (m_ph m) (m_rejoin m) (m_ck m) (m_hb m) (m_inbox m) r (m_cmin m).
-Definition set_cmin r m := mkM (m_name m) (m_live m) (m_id m) (m_gen m) (m_ph m) (m_rejoin m) (m_ck m) (m_hb m) (m_inbox m) (m_hbin m) r.
+Definition set_live b m := mkM (m_name m) b (m_id m) (m_gen m) (m_ph m) (m_rejoin m) (m_ck m) (m_hb m) (m_wait m) (m_inbox m) (m_hbin m) (m_cmin m).
+Definition set_id x m := mkM (m_name m) (m_live m) x (m_gen m) (m_ph m) (m_rejoin m) (m_ck m) (m_hb m) (m_wait m) (m_inbox m) (m_hbin m) (m_cmin m).
+Definition set_gen g m := mkM (m_name m) (m_live m) (m_id m) g (m_ph m) (m_rejoin m) (m_ck m) (m_hb m) (m_wait m) (m_inbox m) (m_hbin m) (m_cmin m).
+Definition set_ph p m := mkM (m_name m) (m_live m) (m_id m) (m_gen m) p (m_rejoin m) (m_ck m) (m_hb m) (m_wait m) (m_inbox m) (m_hbin m) (m_cmin m).
+Definition set_rejoin b m := mkM (m_name m) (m_live m) (m_id m) (m_gen m) (m_ph m) b (m_ck m) (m_hb m) (m_wait m) (m_inbox m) (m_hbin m) (m_cmin m).
+Definition set_ck k m := mkM (m_name m) (m_live m) (m_id m) (m_gen m) (m_ph m) (m_rejoin m) k (m_hb m) (m_wait m) (m_inbox m) (m_hbin m) (m_cmin m).
+Definition set_hb b m := mkM (m_name m) (m_live m) (m_id m) (m_gen m) (m_ph m) (m_rejoin m) (m_ck m) b (m_wait m) (m_inbox m) (m_hbin m) (m_cmin m).
+Definition set_wait x m := mkM (m_name m) (m_live m) (m_id m) (m_gen m) (m_ph m) (m_rejoin m) (m_ck m) (m_hb m) x (m_inbox m) (m_hbin m) (m_cmin m).
+Definition set_inbox r m := mkM (m_name m) (m_live m) (m_id m) (m_gen m) (m_ph m) (m_rejoin m) (m_ck m) (m_hb m) (m_wait m) r (m_hbin m) (m_cmin m).
+Definition set_hbin r m := mkM (m_name m) (m_live m) (m_id m) (m_gen m) (m_ph m) (m_rejoin m) (m_ck m) (m_hb m) (m_wait m) (m_inbox m) r (m_cmin m).
+Definition set_cmin r m := mkM (m_name m) (m_live m) (m_id m) (m_gen m) (m_ph m) (m_rejoin m) (m_ck m) (m_hb m) (m_wait m) (m_inbox m) (m_hbin m) r.
 
 (* interpretation of one action of a translated dispatch chain; [rid] = member id carried by the reply *)
 Definition react1 (rid : nat) (m : member) (a : act) : member :=
@@ -82,8 +86,8 @@ Definition react (rid : nat) (acts : list act) (m : member) : member := fold_lef
 Inductive cstate := CEmpty | CPreparing | CCompleting | CStable.
 Record entry := mkE {
   e_id : nat;
-  e_jp : option nat;        (* a JoinGroup of this client is parked (join_cb) *)
-  e_sp : option nat         (* a SyncGroup of this client is parked (sync_cb) *)
+  e_jp : bool;              (* a JoinGroup for this id is parked (join_cb) *)
+  e_sp : bool               (* a SyncGroup for this id is parked (sync_cb) *)
 }.
 Record coord := mkC {
   c_gen : nat;
@@ -99,48 +103,55 @@ Definition memb (x : nat) (l : list nat) : bool := existsb (Nat.eqb x) l.
 Definition cstate_eqb (a b : cstate) : bool :=
   match a, b with CEmpty, CEmpty | CPreparing, CPreparing | CCompleting, CCompleting | CStable, CStable => true | _, _ => false end.
 
-Definition set_jp (x : nat) (v : option nat) (es : list entry) : list entry :=
+Definition set_jp (x : nat) (v : bool) (es : list entry) : list entry :=
   map (fun e => if e_id e =? x then mkE (e_id e) v (e_sp e) else e) es.
-Definition set_sp (x : nat) (v : option nat) (es : list entry) : list entry :=
+Definition set_sp (x : nat) (v : bool) (es : list entry) : list entry :=
   map (fun e => if e_id e =? x then mkE (e_id e) (e_jp e) v else e) es.
-Definition clear_jp (es : list entry) : list entry := map (fun e => mkE (e_id e) None (e_sp e)) es.
-Definition clear_sp (es : list entry) : list entry := map (fun e => mkE (e_id e) (e_jp e) None) es.
+Definition clear_jp (es : list entry) : list entry := map (fun e => mkE (e_id e) false (e_sp e)) es.
+Definition clear_sp (es : list entry) : list entry := map (fun e => mkE (e_id e) (e_jp e) false) es.
 Definition remove_id (x : nat) (l : list nat) : list nat := filter (fun y => negb (y =? x)) l.
+Definition find_ent (x : nat) (es : list entry) : option entry := find (fun e => e_id e =? x) es.
 
-Definition outbox := list (nat * reply).          (* replies the coordinator releases: client, reply *)
-Definition sync_out (code : Z) (es : list entry) : outbox :=
-  flat_map (fun e => match e_sp e with Some j => [(j, RpSync code)] | None => [] end) es.
-Definition join_out (g : nat) (es : list entry) : outbox :=
-  flat_map (fun e => match e_jp e with Some j => [(j, RpJoin 0 g (e_id e))] | None => [] end) es.
-Definition deliver (out : outbox) (m : member) : member :=
-  match find (fun p => fst p =? m_name m) out with
-  | Some (_, r) => set_inbox (Some r) m
-  | None => m
+(* what the coordinator releases while processing one request / expiry: every parked SyncGroup is answered
+   REBALANCE_IN_PROGRESS (_prepare_rebalance), every parked JoinGroup is answered with the new generation
+   (_complete_join), every parked SyncGroup is answered with the assignment (leader's SyncGroup) *)
+Inductive cev := EvPrepare | EvJoinDone (g : nat) | EvSyncDone.
+
+Definition is_none {A} (o : option A) : bool := match o with None => true | Some _ => false end.
+Definition ph_eqb (a b : phase) : bool :=
+  match a, b with PIdle, PIdle | PJoinSent, PJoinSent | PJoined, PJoined | PSyncSent, PSyncSent => true | _, _ => false end.
+Definition waiting_join (m : member) : bool := ph_eqb (m_ph m) PJoinSent && is_none (m_inbox m).
+Definition waiting_sync (m : member) : bool := ph_eqb (m_ph m) PSyncSent && is_none (m_inbox m).
+
+Definition bcast1 (m : member) (e : cev) : member :=
+  match e with
+  | EvPrepare => if waiting_sync m then set_inbox (Some (RpSync 27)) m else m
+  | EvJoinDone g => if waiting_join m then set_inbox (Some (RpJoin 0 g (m_wait m))) m else m
+  | EvSyncDone => if waiting_sync m then set_inbox (Some (RpSync 0)) m else m
   end.
+Definition bcast (evs : list cev) (m : member) : member := fold_left bcast1 evs m.
 
-Definition all_joined (es : list entry) : bool :=
-  forallb (fun e => match e_jp e with Some _ => true | None => false end) es.
+Definition all_joined (es : list entry) : bool := forallb e_jp es.
 Definition min_id (es : list entry) : nat :=
   match ids es with [] => 0 | x :: r => fold_left Nat.min r x end.
 
-(* _prepare_rebalance: parked SyncGroups are answered REBALANCE_IN_PROGRESS *)
-Definition prepare (c : coord) : coord * outbox :=
-  (mkC (c_gen c) CPreparing (clear_sp (c_ents c)) (c_pend c) (c_leader c), sync_out 27 (c_ents c)).
+Definition prepare (c : coord) : coord * list cev :=
+  (mkC (c_gen c) CPreparing (clear_sp (c_ents c)) (c_pend c) (c_leader c), [EvPrepare]).
 
 (* _maybe_complete_join / _complete_join *)
-Definition maybe_complete (c : coord) : coord * outbox :=
+Definition maybe_complete (c : coord) : coord * list cev :=
   match c_st c, c_ents c with
   | CPreparing, _ :: _ =>
       if all_joined (c_ents c) then
         let g := S (c_gen c) in
         let ldr := if memb (c_leader c) (ids (c_ents c)) then c_leader c else min_id (c_ents c) in
-        (mkC g CCompleting (clear_jp (c_ents c)) (c_pend c) ldr, join_out g (c_ents c))
+        (mkC g CCompleting (clear_jp (c_ents c)) (c_pend c) ldr, [EvJoinDone g])
       else (c, [])
   | _, _ => (c, [])
   end.
 
-Definition prepare_complete (c : coord) : coord * outbox :=
-  let (c1, o1) := prepare c in let (c2, o2) := maybe_complete c1 in (c2, o2 ++ o1).
+Definition prepare_complete (c : coord) : coord * list cev :=
+  let (c1, o1) := prepare c in let (c2, o2) := maybe_complete c1 in (c2, o1 ++ o2).
 
 (* _validate *)
 Definition validate (c : coord) (id gen : nat) : Z :=
@@ -165,47 +176,49 @@ Definition cm_code (c : coord) (m : member) : Z :=
               else match c_st c with CCompleting => 27%Z | _ => 0%Z end
   end.
 
-(* JoinGroup of client [i] for the (existing or new) id [x], after the id checks *)
-Definition join_known (c : coord) (i x : nat) : coord * option reply * outbox :=
+(* the three ways a JoinGroup / SyncGroup ends at the coordinator for the requester *)
+Inductive outcome := Immediate (r : reply) | Parked (x : nat).
+
+(* JoinGroup for the (existing or new) id [x], after the id checks *)
+Definition join_known (c : coord) (x : nat) : coord * outcome * list cev :=
   let isnew := negb (memb x (ids (c_ents c))) in
-  let es1 := if isnew then c_ents c ++ [mkE x (Some i) None] else set_jp x (Some i) (c_ents c) in
+  let es1 := if isnew then c_ents c ++ [mkE x true false] else set_jp x true (c_ents c) in
   let c1 := mkC (c_gen c) (c_st c) es1 (remove_id x (c_pend c)) (c_leader c) in
-  let immediate := (mkC (c_gen c) (c_st c) (set_jp x None es1) (c_pend c1) (c_leader c),
-                    Some (RpJoin 0 (c_gen c) x), []) in
+  let immediate := (mkC (c_gen c) (c_st c) (set_jp x false es1) (c_pend c1) (c_leader c),
+                    Immediate (RpJoin 0 (c_gen c) x), []) in
   match c_st c with
-  | CEmpty => let (c2, o) := prepare_complete c1 in (c2, None, o)
-  | CStable => if isnew || (x =? c_leader c) then let (c2, o) := prepare_complete c1 in (c2, None, o)
+  | CEmpty => let (c2, o) := prepare_complete c1 in (c2, Parked x, o)
+  | CStable => if isnew || (x =? c_leader c) then let (c2, o) := prepare_complete c1 in (c2, Parked x, o)
                else immediate
-  | CCompleting => if isnew then let (c2, o) := prepare_complete c1 in (c2, None, o) else immediate
-  | CPreparing => let (c2, o) := maybe_complete c1 in (c2, None, o)
+  | CCompleting => if isnew then let (c2, o) := prepare_complete c1 in (c2, Parked x, o) else immediate
+  | CPreparing => let (c2, o) := maybe_complete c1 in (c2, Parked x, o)
   end.
 
 (* join(): [id] the member id in the request, [v4] JoinGroup v4+ (KIP-394), [y] the id the coordinator
-   would generate for an empty member id *)
-Definition cjoin (c : coord) (i id : nat) (v4 : bool) (y : nat) : coord * option reply * outbox :=
+   generates for an empty member id *)
+Definition cjoin (c : coord) (id : nat) (v4 : bool) (y : nat) : coord * outcome * list cev :=
   if id =? 0 then
-    if v4 then (mkC (c_gen c) (c_st c) (c_ents c) (y :: c_pend c) (c_leader c), Some (RpJoin 79 0 y), [])
-    else join_known c i y
-  else if negb (memb id (ids (c_ents c))) && negb (memb id (c_pend c)) then (c, Some (RpJoin 25 0 id), [])
-  else join_known c i id.
+    if v4 then (mkC (c_gen c) (c_st c) (c_ents c) (y :: c_pend c) (c_leader c), Immediate (RpJoin 79 0 y), [])
+    else join_known c y
+  else if negb (memb id (ids (c_ents c))) && negb (memb id (c_pend c)) then (c, Immediate (RpJoin 25 0 id), [])
+  else join_known c id.
 
 (* sync() *)
-Definition csync (c : coord) (i id gen : nat) : coord * option reply * outbox :=
+Definition csync (c : coord) (id gen : nat) : coord * outcome * list cev :=
   let v := validate c id gen in
-  if negb (v =? 0)%Z then (c, Some (RpSync v), [])
+  if negb (v =? 0)%Z then (c, Immediate (RpSync v), [])
   else match c_st c with
-       | CPreparing => (c, Some (RpSync 27), [])
-       | CStable => (c, Some (RpSync 0), [])
-       | CEmpty => (c, Some (RpSync 25), [])
+       | CPreparing => (c, Immediate (RpSync 27), [])
+       | CStable => (c, Immediate (RpSync 0), [])
+       | CEmpty => (c, Immediate (RpSync 25), [])
        | CCompleting =>
-           let es1 := set_sp id (Some i) (c_ents c) in
            if id =? c_leader c then
-             (mkC (c_gen c) CStable (clear_sp es1) (c_pend c) (c_leader c), None, sync_out 0 es1)
-           else (mkC (c_gen c) (c_st c) es1 (c_pend c) (c_leader c), None, [])
+             (mkC (c_gen c) CStable (clear_sp (c_ents c)) (c_pend c) (c_leader c), Parked id, [EvSyncDone])
+           else (mkC (c_gen c) (c_st c) (set_sp id true (c_ents c)) (c_pend c) (c_leader c), Parked id, [])
        end.
 
 (* _expire / _rebalance_timeout for one id ([rt] = dropped at the rebalance timeout) + _remove_member *)
-Definition cexpire (c : coord) (x : nat) (rt : bool) : coord * outbox :=
+Definition cexpire (c : coord) (x : nat) (rt : bool) : coord * list cev :=
   let es := filter (fun e => negb (e_id e =? x)) (c_ents c) in
   let ldr := if c_leader c =? x then 0 else c_leader c in
   match es with
@@ -235,19 +248,18 @@ Definition getm (i : nat) (ms : list member) : option member := find (fun m => m
 Definition updm (i : nat) (f : member -> member) (ms : list member) : list member :=
   map (fun m => if m_name m =? i then f m else m) ms.
 
-(* [m] is bound to the table entry [e]: holds its id, has a JoinGroup parked on it, or a JoinGroup reply
-   naming it is on its way *)
+(* [m] is bound to the id [x]: holds it, waits on it with a parked JoinGroup, or a JoinGroup reply naming it
+   is on its way *)
 Definition names_id (r : option reply) (x : nat) : bool :=
   match r with Some (RpJoin _ _ y) => y =? x | _ => false end.
-Definition bound (m : member) (e : entry) : bool :=
-  m_live m && ((m_id m =? e_id e) || names_id (m_inbox m) (e_id e)
-               || match e_jp e with Some j => j =? m_name m | None => false end).
-Definition orphan (ms : list member) (e : entry) : bool := negb (existsb (fun m => bound m e) ms).
+Definition bound (m : member) (x : nat) : bool :=
+  m_live m && ((m_id m =? x) || names_id (m_inbox m) x || (waiting_join m && (m_wait m =? x))).
+Definition orphan (ms : list member) (e : entry) : bool := negb (existsb (fun m => bound m (e_id e)) ms).
 
 (* an id the coordinator may generate now: unused anywhere *)
 Definition fresh (s : state) (y : nat) : bool :=
   negb (y =? 0) && negb (memb y (ids (c_ents (s_c s)))) && negb (memb y (c_pend (s_c s)))
-  && forallb (fun m => negb (m_id m =? y) && negb (names_id (m_inbox m) y)) (s_ms s).
+  && forallb (fun m => negb (m_id m =? y) && negb (names_id (m_inbox m) y) && negb (m_wait m =? y)) (s_ms s).
 
 Definition recv_join (code : Z) (g x : nat) (m : member) : member :=
   if has ARetryJoin (joinRetryDispatch code) then
@@ -267,14 +279,14 @@ Definition recv_hb (code : Z) (m : member) : member :=
 
 Definition recv_cm (code : Z) (m : member) : member := react 0 (commitDispatch code) (set_cmin None m).
 
-Definition is_none {A} (o : option A) : bool := match o with None => true | Some _ => false end.
 Definition ck_known (k : ckst) : bool := match k with CkNone => false | _ => true end.
-Definition ph_eqb (a b : phase) : bool :=
-  match a, b with PIdle, PIdle | PJoinSent, PJoinSent | PJoined, PJoined | PSyncSent, PSyncSent => true | _, _ => false end.
-
+Definition ck_stale (k : ckst) : bool := match k with CkStale => true | _ => false end.
 (* between a MEMBER_ID_REQUIRED reply and the next JoinGroup (member id known, no generation yet) the join loop
    does not yield: no commit is sent there *)
 Definition can_commit (m : member) : bool := (m_id m =? 0) || negb (m_gen m =? 0).
+
+Definition apply_outcome (o : outcome) (m : member) : member :=
+  match o with Immediate r => set_inbox (Some r) m | Parked x => set_wait x (set_inbox None m) end.
 
 Definition step (s : state) (l : label) : option state :=
   let c := s_c s in let ms := s_ms s in
@@ -290,14 +302,11 @@ Definition step (s : state) (l : label) : option state :=
           if m_live m && ph_eqb (m_ph m) PIdle && is_none (m_inbox m) && is_none (m_cmin m)
              && ck_known (m_ck m) && m_rejoin m && (negb (m_id m =? 0) || fresh s y) then
             let sent := fun m => set_ph PJoinSent (set_hbin None (set_hb false m)) in
-            match m_ck m with
-            | CkStale => Some (mkS c (updm i (fun m => set_inbox (Some (RpJoin 16 0 (m_id m))) (sent m)) ms))
-            | _ => match cjoin c i (m_id m) v4 y with
-                   | (c', r, out) =>
-                       Some (mkS c' (map (deliver out)
-                                       (updm i (fun m => set_inbox r (sent m)) ms)))
-                   end
-            end
+            if ck_stale (m_ck m) then
+              Some (mkS c (updm i (fun m => set_inbox (Some (RpJoin 16 0 (m_id m))) (sent m)) ms))
+            else match cjoin c (m_id m) v4 y with
+                 | (c', o, evs) => Some (mkS c' (map (bcast evs) (updm i (fun m => apply_outcome o (sent m)) ms)))
+                 end
           else None
       | None => None
       end
@@ -318,13 +327,16 @@ Definition step (s : state) (l : label) : option state :=
       | Some m =>
           if m_live m && ph_eqb (m_ph m) PJoined && is_none (m_inbox m) && ck_known (m_ck m) then
             let sent := fun m => set_ph PSyncSent (set_rejoin false m) in
-            match m_ck m with
-            | CkStale => Some (mkS c (updm i (fun m => set_inbox (Some (RpSync 16)) (sent m)) ms))
-            | _ => match csync c i (m_id m) (m_gen m) with
-                   | (c', r, out) =>
-                       Some (mkS c' (map (deliver out) (updm i (fun m => set_inbox r (sent m)) ms)))
-                   end
-            end
+            if ck_stale (m_ck m) then
+              Some (mkS c (updm i (fun m => set_inbox (Some (RpSync 16)) (sent m)) ms))
+            else match csync c (m_id m) (m_gen m) with
+                 | (c', o, evs) =>
+                     Some (mkS c' (map (bcast evs)
+                                     (updm i (fun m => match o with
+                                                       | Immediate r => set_inbox (Some r) (sent m)
+                                                       | Parked _ => set_inbox None (sent m)
+                                                       end) ms)))
+                 end
           else None
       | None => None
       end
@@ -358,11 +370,11 @@ Definition step (s : state) (l : label) : option state :=
       | None => None
       end
   | LExpire x rt =>
-      match find (fun e => e_id e =? x) (c_ents c) with
+      match find_ent x (c_ents c) with
       | Some e =>
-          if orphan ms e && is_none (e_jp e) && is_none (e_sp e)
+          if orphan ms e && negb (e_jp e) && negb (e_sp e)
              && (negb rt || cstate_eqb (c_st c) CPreparing) then
-            let (c', out) := cexpire c x rt in Some (mkS c' (map (deliver out) ms))
+            let (c', evs) := cexpire c x rt in Some (mkS c' (map (bcast evs) ms))
           else None
       | None => None
       end
@@ -425,6 +437,13 @@ Definition ostep (s : state) (o : obs) : option state :=
   | OExpire x rt => step s (LExpire x rt)
   end.
 
+Definition lab (o : obs) : label :=
+  match o with
+  | OFind i => LFind i | OJoinReq i v y _ => LSendJoin i v y | OJoinRep i _ _ _ => LRecv i
+  | OSyncReq i _ _ => LSendSync i | OSyncRep i _ => LRecv i | OHbReq i _ _ _ => LHbSend i | OHbRep i _ => LHbRecv i
+  | OCmReq i _ _ _ => LCmSend i | OCmRep i _ => LCmRecv i | OExpire x rt => LExpire x rt
+  end.
+
 (* number of accepted observations and the state reached (the state before the first rejected one) *)
 Fixpoint replay (n : nat) (s : state) (os : list obs) : nat * bool * state :=
   match os with
@@ -436,9 +455,9 @@ Fixpoint replay (n : nat) (s : state) (os : list obs) : nat * bool * state :=
   end.
 
 (* ------------------------------------------------------------------------------------------ *)
-(* converged: the coordinator is Stable, every live member is settled in its generation with the
-   heartbeat task running and nothing but successful heartbeat / commit replies on the wire, and every
-   id in the table is held by a live member *)
+(* converged: the coordinator is Stable (or Empty with nobody alive), every live member is settled in its
+   generation with the heartbeat task running and nothing but successful heartbeat / commit replies on the
+   wire, and every id in the table is held by a live member *)
 Definition ok_or_none (o : option Z) : bool := match o with None => true | Some c => (c =? 0)%Z end.
 Definition ck_ok (k : ckst) : bool := match k with CkOk => true | _ => false end.
 Definition settled (c : coord) (m : member) : bool :=
@@ -449,31 +468,28 @@ Definition settled (c : coord) (m : member) : bool :=
 Definition converged_b (s : state) : bool :=
   (cstate_eqb (c_st (s_c s)) CStable || cstate_eqb (c_st (s_c s)) CEmpty)
   && forallb (settled (s_c s)) (s_ms s)
-  && forallb (fun e => negb (orphan (s_ms s) e) && is_none (e_jp e) && is_none (e_sp e)) (c_ents (s_c s)).
+  && forallb (fun e => negb (orphan (s_ms s) e) && negb (e_jp e) && negb (e_sp e)) (c_ents (s_c s)).
 
 (* ------------------------------------------------------------------------------------------ *)
 (* invariant of the quiet period (boolean; evaluated on the state every replay starts from)     *)
 
-Definition find_ent (x : nat) (es : list entry) : option entry := find (fun e => e_id e =? x) es.
-Definition parked_join (c : coord) (m : member) : bool :=
-  existsb (fun e => match e_jp e with Some j => j =? m_name m | None => false end) (c_ents c).
-Definition parked_sync (c : coord) (m : member) : bool :=
-  existsb (fun e => match e_sp e with Some j => j =? m_name m | None => false end) (c_ents c).
 Definition zmem (x : Z) (l : list Z) : bool := existsb (Z.eqb x) l.
 Definition opt_in (o : option Z) (l : list Z) : bool := match o with None => true | Some c => zmem c l end.
 Fixpoint nodupb (l : list nat) : bool :=
   match l with [] => true | x :: r => negb (memb x r) && nodupb r end.
+Definition ent_jp (c : coord) (x : nat) : bool := match find_ent x (c_ents c) with Some e => e_jp e | None => false end.
+Definition ent_sp (c : coord) (x : nat) : bool := match find_ent x (c_ents c) with Some e => e_sp e | None => false end.
 
 Definition wf_c (c : coord) : bool :=
   nodupb (ids (c_ents c)) && negb (memb 0 (ids (c_ents c))) && negb (memb 0 (c_pend c))
   && forallb (fun x => negb (memb x (ids (c_ents c)))) (c_pend c)
   && (cstate_eqb (c_st c) CEmpty || negb (is_none (hd_error (c_ents c))))
   && (negb (cstate_eqb (c_st c) CEmpty) || is_none (hd_error (c_ents c)))
-  && (cstate_eqb (c_st c) CPreparing || forallb (fun e => is_none (e_jp e)) (c_ents c))
-  && (cstate_eqb (c_st c) CCompleting || forallb (fun e => is_none (e_sp e)) (c_ents c))
+  && (cstate_eqb (c_st c) CPreparing || forallb (fun e => negb (e_jp e)) (c_ents c))
+  && (cstate_eqb (c_st c) CCompleting || forallb (fun e => negb (e_sp e)) (c_ents c))
   && (negb (cstate_eqb (c_st c) CPreparing) || negb (all_joined (c_ents c)))
   && (match c_st c with CCompleting | CStable => memb (c_leader c) (ids (c_ents c)) && negb (c_gen c =? 0) | _ => true end)
-  && (match find_ent (c_leader c) (c_ents c) with Some e => is_none (e_sp e) | None => true end).
+  && negb (ent_sp c (c_leader c)).
 
 Definition join_codes : list Z := [0; 16; 25; 79]%Z.
 Definition probe_codes : list Z := [0; 16; 22; 25; 27]%Z.
@@ -484,7 +500,7 @@ Definition wf_m (m : member) : bool :=
   ((match m_ph m, m_inbox m with
     | PIdle, None => true
     | PJoined, None => negb (m_id m =? 0) && negb (m_gen m =? 0) && ck_known (m_ck m)
-    | PJoinSent, None => ck_ok (m_ck m)
+    | PJoinSent, None => ck_ok (m_ck m) && negb (m_wait m =? 0) && ((m_id m =? m_wait m) || (m_id m =? 0))
     | PJoinSent, Some (RpJoin c g x) =>
         zmem c join_codes && ck_known (m_ck m)
         && (negb (c =? 16)%Z || ((x =? m_id m) && negb (ck_ok (m_ck m))))
@@ -501,7 +517,7 @@ Definition wf_m (m : member) : bool :=
    && (m_rejoin m || negb (ph_eqb (m_ph m) PIdle) || (m_hb m && negb (m_id m =? 0) && negb (m_gen m =? 0)))
    && ((m_gen m =? 0) || negb (m_id m =? 0))
    && (can_commit m || (negb (m_hb m) && is_none (m_cmin m)))
-   && (negb (match m_ck m with CkStale => true | _ => false end)
+   && (negb (ck_stale (m_ck m))
        || (opt_in (m_hbin m) [16%Z] && opt_in (m_cmin m) [16%Z]
            && match m_inbox m with None => true | Some (RpJoin c _ _) => (c =? 16)%Z | Some (RpSync c) => (c =? 16)%Z end))
    && opt_in (m_hbin m) probe_codes && opt_in (m_cmin m) probe_codes).
@@ -509,17 +525,8 @@ Definition wf_m (m : member) : bool :=
 (* a live member against the coordinator *)
 Definition coh (c : coord) (m : member) : bool :=
   negb (m_live m) ||
-  (forallb (fun e =>
-      (match e_jp e with
-       | Some j => negb (j =? m_name m)
-                   || (ph_eqb (m_ph m) PJoinSent && is_none (m_inbox m) && ((m_id m =? e_id e) || (m_id m =? 0)))
-       | None => true end)
-      && (match e_sp e with
-          | Some j => negb (j =? m_name m)
-                      || (ph_eqb (m_ph m) PSyncSent && is_none (m_inbox m) && (m_id m =? e_id e) && (m_gen m =? c_gen c))
-          | None => true end)) (c_ents c)
-   && (negb (ph_eqb (m_ph m) PJoinSent && is_none (m_inbox m)) || parked_join c m)
-   && (negb (ph_eqb (m_ph m) PSyncSent && is_none (m_inbox m)) || parked_sync c m)
+  ((negb (waiting_join m) || ent_jp c (m_wait m))
+   && (negb (waiting_sync m) || (ent_sp c (m_id m) && (m_gen m =? c_gen c)))
    && (match m_inbox m with
        | Some (RpJoin 79%Z _ x) => memb x (c_pend c)
        | Some (RpJoin 0%Z g x) => (g <=? c_gen c) && negb (memb x (c_pend c))
@@ -527,23 +534,8 @@ Definition coh (c : coord) (m : member) : bool :=
    && (negb (memb (m_id m) (c_pend c)) || (m_gen m =? 0))
    && (m_gen m <=? c_gen c)).
 
-(* two different live members are never bound to the same id, do not hold the same id, and at most one
-   request is parked per client *)
-Definition held (m : member) (x : nat) : bool :=
-  m_live m && negb (x =? 0) && ((m_id m =? x) || names_id (m_inbox m) x).
-Fixpoint pairwise {A} (p : A -> A -> bool) (l : list A) : bool :=
-  match l with [] => true | x :: r => forallb (p x) r && pairwise p r end.
-Definition all_ids (s : state) : list nat :=
-  ids (c_ents (s_c s)) ++ c_pend (s_c s)
-  ++ flat_map (fun m => m_id m :: match m_inbox m with Some (RpJoin _ _ x) => [x] | _ => [] end) (s_ms s).
-Definition distinct (s : state) : bool :=
-  nodupb (map m_name (s_ms s))
-  && pairwise (fun a b => forallb (fun x => negb (held a x && held b x)) (all_ids s)) (s_ms s)
-  && nodupb (flat_map (fun e => match e_jp e with Some j => [j] | None => [] end) (c_ents (s_c s)))
-  && nodupb (flat_map (fun e => match e_sp e with Some j => [j] | None => [] end) (c_ents (s_c s))).
-
 Definition inv_b (s : state) : bool :=
-  wf_c (s_c s) && forallb wf_m (s_ms s) && forallb (coh (s_c s)) (s_ms s) && distinct s.
+  wf_c (s_c s) && forallb wf_m (s_ms s) && forallb (coh (s_c s)) (s_ms s) && nodupb (map m_name (s_ms s)).
 
 (* ------------------------------------------------------------------------------------------ *)
 (* the variant                                                                                 *)
@@ -552,7 +544,7 @@ Definition member_eqb (a b : member) : bool :=
   (m_name a =? m_name b) && Bool.eqb (m_live a) (m_live b) && (m_id a =? m_id b) && (m_gen a =? m_gen b)
   && ph_eqb (m_ph a) (m_ph b) && Bool.eqb (m_rejoin a) (m_rejoin b)
   && (match m_ck a, m_ck b with CkNone, CkNone | CkStale, CkStale | CkOk, CkOk => true | _, _ => false end)
-  && Bool.eqb (m_hb a) (m_hb b)
+  && Bool.eqb (m_hb a) (m_hb b) && (m_wait a =? m_wait b)
   && (match m_inbox a, m_inbox b with
       | None, None => true
       | Some (RpJoin c g x), Some (RpJoin c' g' x') => (c =? c')%Z && (g =? g') && (x =? x')
@@ -585,17 +577,15 @@ Definition doomed (m : member) : bool :=
       | None => false end).
 
 Inductive mclass := KDead | KUnattached | KInconsistent | KConsistent.
-Definition jp_free (c : coord) (x : nat) : bool :=
-  match find_ent x (c_ents c) with Some e => is_none (e_jp e) | None => false end.
 Definition cls (c : coord) (m : member) : mclass :=
   if negb (m_live m) then KDead
-  else if parked_join c m then KConsistent
+  else if waiting_join m then (if memb (m_wait m) (ids (c_ents c)) then KConsistent else KUnattached)
   else match m_inbox m with
        | Some (RpJoin 0%Z g x) =>
-           if memb x (ids (c_ents c)) then (if (g =? c_gen c) && jp_free c x then KConsistent else KInconsistent)
+           if memb x (ids (c_ents c)) then (if (g =? c_gen c) && negb (ent_jp c x) then KConsistent else KInconsistent)
            else KUnattached
        | _ => if negb (m_id m =? 0) && memb (m_id m) (ids (c_ents c)) then
-                (if (m_gen m =? c_gen c) && jp_free c (m_id m) && negb (doomed m) then KConsistent else KInconsistent)
+                (if (m_gen m =? c_gen c) && negb (ent_jp c (m_id m)) && negb (doomed m) then KConsistent else KInconsistent)
               else KUnattached
        end.
 
@@ -647,7 +637,7 @@ Definition erank (c : coord) : nat :=
 
 (* coordinator-knowledge potential *)
 Definition ckp (m : member) : nat :=
-  let stale := match m_ck m with CkStale => true | _ => false end in
+  let stale := ck_stale (m_ck m) in
   (match m_ck m with CkNone => 1 | _ => 0 end)
   + (if dead_code_main (m_inbox m) then 2
      else if stale && is_none (m_inbox m) && (ph_eqb (m_ph m) PIdle || ph_eqb (m_ph m) PJoined) then 3 else 0)
@@ -703,6 +693,9 @@ Definition mu (s : state) : nat :=
 
 (* ------------------------------------------------------------------------------------------ *)
 (* exploration helpers (used by the harness to test the variant on concrete states; not in proofs) *)
+Definition all_ids (s : state) : list nat :=
+  ids (c_ents (s_c s)) ++ c_pend (s_c s)
+  ++ flat_map (fun m => m_id m :: m_wait m :: match m_inbox m with Some (RpJoin _ _ x) => [x] | _ => [] end) (s_ms s).
 Definition max_id (s : state) : nat := fold_right Nat.max 0 (all_ids s).
 Definition all_labels (s : state) : list label :=
   flat_map (fun m => let i := m_name m in
@@ -711,7 +704,7 @@ Definition all_labels (s : state) : list label :=
   ++ flat_map (fun e => [LExpire (e_id e) false; LExpire (e_id e) true]) (c_ents (s_c s)).
 Definition enabled (s : state) : list label := filter (fun l => negb (is_none (step s l))) (all_labels s).
 (* what goes wrong at [s] (empty = nothing): 1 successor violates inv_b, 2 variant not decreased by a real step,
-   3 variant increased by a no-op, 4 not converged but only no-ops enabled *)
+   3 variant increased by a no-op, 4 not converged but no real step is enabled, not even after one no-op *)
 Definition check_here (s : state) : list (nat * label) :=
   flat_map (fun l => match step s l with
                      | None => []
